@@ -14,6 +14,8 @@ import (
 	"math/rand/v2"
 	"sort"
 	"strings"
+	"sync/atomic"
+	"time"
 
 	"github.com/formancehq/numscript/internal/interpreter"
 	"github.com/formancehq/numscript/internal/verifsim/c12"
@@ -63,6 +65,11 @@ type Case struct {
 	// errors. Such a ParseResult is still something a caller can hold and run; whatever Run does
 	// with it (an error, a panic) it must do again for the same inputs.
 	RawText string `json:"raw_text,omitempty"`
+	// Linger, when > 0: one more run of task 0, alone, against a store that ignores its context;
+	// at its Linger-th call the context is cancelled while the call is in flight and the store
+	// answers only later. Whatever Run then returns, it must not return before its store call
+	// has: a run that has returned is over (nothing of it is still inside the caller's store).
+	Linger int `json:"linger,omitempty"`
 }
 
 type Result struct {
@@ -234,6 +241,27 @@ func Execute(c Case, keepTrace bool, ch chooser) (res Result) {
 		}
 		if c.RawText == "" && c.UsesOD && oNone.ErrType != "ExperimentalFeature" && oNone.ErrType != "MissingVariableErr" && oNone.Canon() == oWith.Canon() && oWith.Err == "" {
 			res.Violation = viol("flags", "gated-feature-available-without-flag", "script calls overdraft(); without the flag it still succeeds: "+oNone.Canon())
+			return res
+		}
+	}
+
+	if c.Linger > 0 && len(c.Tasks) > 0 && !c.Tasks[0].Noise {
+		t0 := c.Tasks[0]
+		pl := c.plan(t0)
+		pl.Shared, pl.Faults = false, nil
+		ctx, cancel := context.WithCancel(context.Background())
+		ls := &lingerStore{inner: store.New(c.inputsFor(t0), pl), at: c.Linger, cancel: cancel, release: make(chan struct{})}
+		o := exec.Run(ctx, p.PR, copyVars(t0.Vars), ls, flagsMap(t0))
+		inflight := ls.inflight.Load()
+		close(ls.release)
+		cancel()
+		res.Runs++
+		if ls.hit {
+			res.Probes["context_cancelled_while_a_store_call_was_in_flight"]++
+		}
+		tr.Add("linger run (context cancelled during store call %d, store answers later): %s ; store calls in flight at return: %d", c.Linger, o.Canon(), inflight)
+		if inflight > 0 {
+			res.Violation = viol("purity", "run-returned-while-its-store-call-was-in-flight", fmt.Sprintf("the context was cancelled while store call %d was in flight (the store ignores contexts and answers a moment later); Run returned %s while that call was still running inside the caller's store", c.Linger, core.Truncate(o.Canon(), 300)))
 			return res
 		}
 	}
@@ -658,6 +686,9 @@ func genCase(r *rand.Rand) (Case, chooser) {
 			}
 		}
 	}
+	if r.IntN(60) == 0 {
+		c.Linger = 1 + r.IntN(3)
+	}
 	// schedule
 	if k == 1 {
 		return c, newRecorded(nil)
@@ -785,6 +816,7 @@ func Worker(o core.WorkerOpts) *core.Report {
 			c.Switches = nil
 			ch = newRecorded(nil)
 		}
+		l.Current(caseSeed, c)
 		res := Execute(c, false, ch)
 		if res.Hung {
 			// goroutines of the code under test are blocked for good: nothing more can be decided here
@@ -915,4 +947,49 @@ func Replay(raw json.RawMessage, o core.WorkerOpts) (*core.Violation, *core.Trac
 		return nil, nil, fmt.Errorf("%s", res.HarnessErr)
 	}
 	return res.Violation, res.Trace, nil
+}
+
+// lingerStore ignores its context. At call number `at` it has the harness cancel the context,
+// then keeps the caller waiting for a moment (or until the harness has seen Run return,
+// whichever comes first) before it answers.
+type lingerStore struct {
+	inner    *store.SimStore
+	at, n    int
+	hit      bool
+	cancel   context.CancelFunc
+	inflight atomic.Int32
+	release  chan struct{}
+}
+
+func (l *lingerStore) enter() bool {
+	l.n++
+	if l.n != l.at {
+		return false
+	}
+	l.hit = true
+	l.inflight.Add(1)
+	l.cancel()
+	select {
+	case <-l.release:
+	case <-time.After(40 * time.Millisecond):
+	}
+	return true
+}
+
+func (l *lingerStore) GetBalances(ctx context.Context, q interpreter.BalanceQuery) (interpreter.Balances, error) {
+	hit := l.enter()
+	out, err := l.inner.GetBalances(context.Background(), q)
+	if hit {
+		l.inflight.Add(-1)
+	}
+	return out, err
+}
+
+func (l *lingerStore) GetAccountsMetadata(ctx context.Context, q interpreter.MetadataQuery) (interpreter.AccountsMetadata, error) {
+	hit := l.enter()
+	out, err := l.inner.GetAccountsMetadata(context.Background(), q)
+	if hit {
+		l.inflight.Add(-1)
+	}
+	return out, err
 }
